@@ -2,6 +2,8 @@
 # usage: trymut.sh <patch.diff|-e 'sed expr' file> -- <check> [<check>...]   (applies to /repo, runs checks, reverts)
 set -u
 cd /verif
+# evidence files are rewritten by every run: keep the ones of the unchanged tree
+rm -rf build/evidence.keep && cp -r evidence build/evidence.keep
 if [ "$1" = "-e" ]; then
   sed -i "$2" "/repo/$3"; shift 3
 else
@@ -14,3 +16,4 @@ for c in "$@"; do
   echo "== $c exit=$rc: $(echo "$out" | grep -c '^VIOLATION') violations"; echo "$out" | grep -A2 '^VIOLATION' | head -8 | cut -c1-300
 done
 git -C /repo checkout -- .
+rm -rf evidence && mv build/evidence.keep evidence
